@@ -22,7 +22,7 @@ func init() {
 func genC02(g *Gen, tier string, w *bufio.Writer) {
 	n := 900
 	if tier == "thorough" {
-		n = 24000
+		n = 8000
 	}
 	for i := 0; i < n; i++ {
 		fmt.Fprintln(w, genJoinOp(g, tier == "thorough"))
